@@ -134,12 +134,6 @@ Qed.
 (* ------------------------------------------------------------------ *)
 (* bracket sets                                                        *)
 
-Lemma ordinary_inv c : ordinary c = true ->
-  (c =? 0) = false /\ (c =? 92) = false /\ (c =? 93) = false /\ (c =? 91) = false /\ (c =? 45) = false.
-Proof.
-  unfold ordinary. rewrite negb_true_iff, !orb_false_iff. tauto.
-Qed.
-
 Lemma leb_both c tch : (c <=? tch) && (tch <=? c) = (tch =? c).
 Proof.
   destruct (tch =? c) eqn:E.
@@ -149,62 +143,88 @@ Proof.
 Qed.
 
 Lemma in_ranges_single c tch : in_ranges [(c, c)] tch = (tch =? c).
+Proof. unfold in_ranges. cbn. now rewrite orb_false_r, leb_both. Qed.
+
+Lemma in_ranges_one lo hi tch : in_ranges [(lo, hi)] tch = (tch <=? hi) && (lo <=? tch).
+Proof. unfold in_ranges. cbn. rewrite orb_false_r. apply andb_comm. Qed.
+
+Lemma in_ranges_app a b c : in_ranges (a ++ b) c = in_ranges a c || in_ranges b c.
+Proof. unfold in_ranges. apply existsb_app. Qed.
+
+Definition prevN (prev : option N) : N := match prev with Some x => x | None => 0 end.
+Definition prev_ok (prev : option N) : Prop := match prev with Some x => x <> 0 | None => True end.
+
+Lemma prev_some prev : prev_ok prev -> negb (prevN prev =? 0) = is_some prev.
 Proof.
-  unfold in_ranges. cbn. rewrite orb_false_r.
-  destruct (tch =? c) eqn:E.
-  - apply N.eqb_eq in E. subst. now rewrite N.leb_refl.
-  - apply N.eqb_neq in E. destruct (c <=? tch) eqn:A; destruct (tch <=? c) eqn:B; try reflexivity.
-    apply N.leb_le in A. apply N.leb_le in B. lia.
+  destruct prev as [x|]; cbn; [|reflexivity]. intros H. apply N.eqb_neq in H. now rewrite H.
 Qed.
 
-Lemma in_ranges_cons lo hi rs tch :
-  in_ranges ((lo, hi) :: rs) tch = ((lo <=? tch) && (tch <=? hi)) || in_ranges rs tch.
-Proof. reflexivity. Qed.
-
-Lemma cls_loop_parse_n : forall n fuel c r rs rest tch prev matched,
-  (List.length r < n)%nat ->
-  parse_elems (c :: r) = Some (rs, rest) -> (List.length r < fuel)%nat ->
-  cls_loop fuel false tch prev matched c r = CDone (matched || in_ranges rs tch) rest.
+Lemma cls_loop_parse_n : forall n fuel pfuel prev c r rs rest tch matched,
+  (List.length r < n)%nat -> prev_ok prev ->
+  parse_elems pfuel prev (c :: r) = Some (rs, rest) -> (List.length r < fuel)%nat ->
+  cls_loop fuel false tch (prevN prev) matched c r = CDone (matched || in_ranges rs tch) rest.
 Proof.
-  induction n as [|n IH]; intros fuel c r rs rest tch prev matched Hn Hp Hf; [lia|].
-  destruct fuel as [|f]; [lia|].
-  cbn [parse_elems] in Hp.
-  destruct (ordinary c) eqn:Oc; [|discriminate].
-  destruct (ordinary_inv _ Oc) as (C0 & C92 & C93 & C91 & C45).
-  cbn [cls_loop]. unfold cBSL, cDASH, cLB, cRB, cCOLON in *.
-  rewrite C92, C45, C91. cbn [andb].
-  destruct r as [|d r1]; [discriminate|].
-  destruct (d =? 93) eqn:D93.
-  { inversion Hp; subst. rewrite in_ranges_single. reflexivity. }
-  destruct (d =? 45) eqn:D45.
-  - apply N.eqb_eq in D45. subst d.
-    destruct r1 as [|e r2]; [discriminate|].
-    destruct (ordinary e) eqn:Oe; [|discriminate].
-    destruct (ordinary_inv _ Oe) as (E0 & E92 & E93 & E91 & E45).
-    destruct r2 as [|x r3]; [discriminate|].
-    destruct f as [|f2]; [cbn in Hf; lia|].
-    cbn [cls_loop]. unfold cBSL, cDASH, cLB, cRB, cCOLON in *.
-    change (45 =? 92) with false. change (45 =? 45) with true. rewrite C0, E93, E92. cbn [andb negb].
-    destruct (x =? 93) eqn:X93.
-    + inversion Hp; subst. f_equal.
-      rewrite !in_ranges_cons, leb_both. unfold in_ranges. cbn [existsb].
-      destruct matched, (tch =? c), (tch <=? e), (c <=? tch); reflexivity.
-    + destruct (parse_elems (x :: r3)) as [[rs' rest']|] eqn:Hp'; [|discriminate].
-      inversion Hp; subst.
-      rewrite (IH f2 x r3 rs' rest tch 0 _ ltac:(cbn in Hn; lia) Hp' ltac:(cbn in Hf; lia)).
-      f_equal. rewrite !in_ranges_cons, leb_both.
-      destruct matched, (tch =? c), (tch <=? e), (c <=? tch), (in_ranges rs' tch); reflexivity.
-  - destruct (parse_elems (d :: r1)) as [[rs' rest']|] eqn:Hp'; [|discriminate].
-    inversion Hp; subst.
-    rewrite (IH f d r1 rs' rest tch c _ ltac:(cbn in Hn; lia) Hp' ltac:(cbn in Hf; lia)).
-    f_equal. rewrite in_ranges_cons, leb_both.
-    destruct matched, (tch =? c), (in_ranges rs' tch); reflexivity.
+  induction n as [|n IH]; intros fuel pfuel prev c r rs rest tch matched Hn Hok Hp Hf; [lia|].
+  destruct fuel as [|f]; [lia|]. destruct pfuel as [|pf]; [discriminate|].
+  (* the loop tail against the continuation of the parser *)
+  assert (Htail : forall prev' rs0 rest0 m0, prev_ok prev' -> (List.length rest0 <= List.length r)%nat ->
+     match rest0 with
+     | [] => None
+     | x :: after =>
+       if x =? 93 then Some (rs0, after)
+       else match parse_elems pf prev' rest0 with
+            | Some (rs', rest') => Some (rs0 ++ rs', rest')
+            | None => None
+            end
+     end = Some (rs, rest) ->
+     exists rs1, rs = rs0 ++ rs1 /\
+       match rest0 with
+       | [] => CAbort
+       | x :: r0 => if x =? cRB then CDone m0 r0 else cls_loop f false tch (prevN prev') m0 x r0
+       end = CDone (m0 || in_ranges rs1 tch) rest).
+  { intros prev' rs0 rest0 m0 Hok' Hl H. destruct rest0 as [|x r0]; [discriminate|].
+    unfold cRB. destruct (x =? 93).
+    - inversion H; subst. exists []. rewrite app_nil_r. split; [reflexivity|]. now rewrite orb_false_r.
+    - destruct (parse_elems pf prev' (x :: r0)) as [[rs' rest']|] eqn:E; [|discriminate].
+      inversion H; subst. exists rs'. split; [reflexivity|].
+      apply (IH f pf prev' x r0 rs' rest tch m0); [cbn in Hl; lia|assumption|assumption|cbn in Hl; lia]. }
+  cbn [parse_elems] in Hp. cbn [cls_loop]. unfold cBSL, cDASH, cLB, cRB, cCOLON.
+  destruct (c =? 0) eqn:C0; [discriminate|].
+  destruct (c =? 92) eqn:C92.
+  { destruct r as [|e r']; [discriminate|]. destruct (e =? 0) eqn:E0; [discriminate|].
+    destruct (Htail (Some e) [(e, e)] r' (matched || (tch =? e))) as (rs1 & -> & Ht);
+      [cbn; now apply N.eqb_neq|cbn; lia|exact Hp|].
+    cbn [prevN] in Ht. unfold cRB in Ht. rewrite Ht. f_equal.
+    now rewrite in_ranges_app, in_ranges_single, orb_assoc. }
+  rewrite (prev_some _ Hok).
+  destruct ((c =? 45) && is_some prev && match r with [] => false | h :: _ => negb (h =? 93) end) eqn:CD.
+  { destruct prev as [lo|]; [|now rewrite andb_false_r in CD].
+    destruct r as [|h r1]; [discriminate|].
+    destruct (h =? 92) eqn:H92.
+    - destruct r1 as [|e2 r2]; [discriminate|].
+      destruct (Htail None [(lo, e2)] r2
+                  (matched || ((tch <=? e2) && (prevN (Some lo) <=? tch) ||
+                               false && is_lower tch && ((tch - 32 <=? e2) && (prevN (Some lo) <=? tch - 32)))))
+        as (rs1 & -> & Ht); [exact I|cbn; lia|exact Hp|].
+      cbn [prevN] in Ht |- *. unfold cRB in Ht. rewrite Ht. f_equal.
+      rewrite in_ranges_app, in_ranges_one. cbn [andb]. now rewrite orb_false_r, orb_assoc.
+    - destruct (Htail None [(lo, h)] r1
+                  (matched || ((tch <=? h) && (prevN (Some lo) <=? tch) ||
+                               false && is_lower tch && ((tch - 32 <=? h) && (prevN (Some lo) <=? tch - 32)))))
+        as (rs1 & -> & Ht); [exact I|cbn; lia|exact Hp|].
+      cbn [prevN] in Ht |- *. unfold cRB in Ht. rewrite Ht. f_equal.
+      rewrite in_ranges_app, in_ranges_one. cbn [andb]. now rewrite orb_false_r, orb_assoc. }
+  destruct ((c =? 91) && match r with [] => false | h :: _ => h =? 58 end) eqn:CP; [discriminate|].
+  destruct (Htail (Some c) [(c, c)] r (matched || (tch =? c))) as (rs1 & -> & Ht);
+    [cbn; now apply N.eqb_neq|lia|exact Hp|].
+  cbn [prevN] in Ht. unfold cRB in Ht. rewrite Ht. f_equal.
+  now rewrite in_ranges_app, in_ranges_single, orb_assoc.
 Qed.
 
-Lemma cls_loop_parse fuel c r rs rest tch prev matched :
-  parse_elems (c :: r) = Some (rs, rest) -> (List.length r < fuel)%nat ->
-  cls_loop fuel false tch prev matched c r = CDone (matched || in_ranges rs tch) rest.
-Proof. intros. eapply cls_loop_parse_n; eauto. Qed.
+Lemma cls_loop_parse fuel pfuel c r rs rest tch matched :
+  parse_elems pfuel None (c :: r) = Some (rs, rest) -> (List.length r < fuel)%nat ->
+  cls_loop fuel false tch 0 matched c r = CDone (matched || in_ranges rs tch) rest.
+Proof. intros. eapply (cls_loop_parse_n (S (List.length r)) fuel pfuel None); eauto. exact I. Qed.
 
 Lemma bracket_parse q neg rs rest tch :
   parse_set q = Some (ISet neg rs, rest) ->
@@ -215,28 +235,28 @@ Proof.
   destruct (c =? 33) eqn:C33.
   - apply N.eqb_eq in C33. subst c. cbn [orb N.eqb].
     change (33 =? 94) with false. cbn iota. change (33 =? 33) with true. cbn iota.
-    destruct (parse_elems q1) as [[rs' rest']|] eqn:Hp; [|discriminate].
+    destruct (parse_elems (S (List.length q1)) None q1) as [[rs' rest']|] eqn:Hp; [|discriminate].
     intros H; inversion H; subst.
     destruct q1 as [|c2 q2]; [discriminate|].
-    now rewrite (cls_loop_parse (S (List.length q2)) _ _ _ _ tch 0 false Hp ltac:(lia)).
+    now rewrite (cls_loop_parse (S (List.length q2)) _ _ _ _ _ tch false Hp ltac:(lia)).
   - destruct (c =? 94) eqn:C94.
     + cbn [orb]. change (33 =? 33) with true. cbn iota.
-      destruct (parse_elems q1) as [[rs' rest']|] eqn:Hp; [|discriminate].
+      destruct (parse_elems (S (List.length q1)) None q1) as [[rs' rest']|] eqn:Hp; [|discriminate].
       intros H; inversion H; subst.
       destruct q1 as [|c2 q2]; [discriminate|].
-      now rewrite (cls_loop_parse (S (List.length q2)) _ _ _ _ tch 0 false Hp ltac:(lia)).
+      now rewrite (cls_loop_parse (S (List.length q2)) _ _ _ _ _ tch false Hp ltac:(lia)).
     + cbn [orb]. rewrite C33.
-      destruct (parse_elems (c :: q1)) as [[rs' rest']|] eqn:Hp; [|discriminate].
+      destruct (parse_elems (S (List.length (c :: q1))) None (c :: q1)) as [[rs' rest']|] eqn:Hp; [|discriminate].
       intros H; inversion H; subst.
-      now rewrite (cls_loop_parse (S (List.length q1)) _ _ _ _ tch 0 false Hp ltac:(lia)).
+      now rewrite (cls_loop_parse (S (List.length q1)) _ _ _ _ _ tch false Hp ltac:(lia)).
 Qed.
 
 Lemma parse_set_is_set q it rest : parse_set q = Some (it, rest) -> exists neg rs, it = ISet neg rs.
 Proof.
   unfold parse_set. destruct q as [|c r]; [discriminate|].
   destruct ((c =? 33) || (c =? 94)).
-  - destruct (parse_elems r) as [[rs rest']|]; [|discriminate]. intros H; inversion H; eauto.
-  - destruct (parse_elems (c :: r)) as [[rs rest']|]; [|discriminate]. intros H; inversion H; eauto.
+  - destruct (parse_elems _ None r) as [[rs rest']|]; [|discriminate]. intros H; inversion H; eauto.
+  - destruct (parse_elems _ None (c :: r)) as [[rs rest']|]; [|discriminate]. intros H; inversion H; eauto.
 Qed.
 
 (* ------------------------------------------------------------------ *)
